@@ -883,3 +883,47 @@ def inputs_only_read(qualname, roots):
             out.append(_ob(qualname, "mutating-call-on-input:%s@L%d" % (s.func.attr, s.lineno), False, s.lineno, "`%s` at line %d mutates an object reached from the input(s) %s" % (ast.unparse(s)[:80], s.lineno, sorted(roots))))
     out.append(_ob(qualname, "inputs-only-read:%s" % ",".join(sorted(roots)), True, None, "no write through %s" % sorted(roots)))
     return out
+
+
+def comparisons_with_loop_constants_can_hold(qualname):
+    """a loop variable that ranges over a literal list of string constants (directly, or as one component of a zip of literal
+    lists) is only compared with constants it can take: `x == "c"` with "c" not in the list is a rule that can never fire (dead
+    validation branch)"""
+    fi = source.lookup(qualname)
+    out = []
+    n = 0
+
+    def consts(node):
+        if isinstance(node, (ast.List, ast.Tuple, ast.Set)) and node.elts and all(isinstance(e, ast.Constant) and isinstance(e.value, str) for e in node.elts):
+            return [e.value for e in node.elts]
+        return None
+
+    for loop in ast.walk(fi.node):
+        if not isinstance(loop, ast.For):
+            continue
+        ranges = {}
+        if isinstance(loop.target, ast.Name) and consts(loop.iter):
+            ranges[loop.target.id] = consts(loop.iter)
+        elif isinstance(loop.target, ast.Tuple) and isinstance(loop.iter, ast.Call) and isinstance(loop.iter.func, ast.Name) and loop.iter.func.id == "zip":
+            for t, a in zip(loop.target.elts, loop.iter.args):
+                if isinstance(t, ast.Name) and consts(a):
+                    ranges[t.id] = consts(a)
+        if not ranges:
+            continue
+        rebound = {x.id for b in loop.body for x in ast.walk(b) if isinstance(x, ast.Name) and isinstance(x.ctx, ast.Store)}
+        for b in loop.body:
+            for c in ast.walk(b):
+                if isinstance(c, ast.Compare) and len(c.ops) == 1 and isinstance(c.left, ast.Name) and c.left.id in ranges and c.left.id not in rebound:
+                    vals = ranges[c.left.id]
+                    rhs = c.comparators[0]
+                    if isinstance(c.ops[0], (ast.Eq, ast.NotEq)) and isinstance(rhs, ast.Constant) and isinstance(rhs.value, str):
+                        n += 1
+                        ok = rhs.value in vals
+                        out.append(_ob(qualname, "comparison-can-hold:%s==%r@L%d" % (c.left.id, rhs.value, c.lineno), ok, c.lineno,
+                                       "`%s` ranges over %r (loop at line %d); the test `%s` at line %d can %s" % (c.left.id, vals, loop.lineno, ast.unparse(c), c.lineno, "hold" if ok else "NEVER hold: the rule it guards is dead")))
+                    elif isinstance(c.ops[0], (ast.In, ast.NotIn)) and consts(rhs):
+                        n += 1
+                        dead = [v for v in consts(rhs) if v not in vals]
+                        out.append(_ob(qualname, "comparison-can-hold:%s-in-%d-constants@L%d" % (c.left.id, len(consts(rhs)), c.lineno), not dead, c.lineno,
+                                       "`%s` ranges over %r; the test `%s` at line %d names %s" % (c.left.id, vals, ast.unparse(c), c.lineno, ("values it never takes: %r" % dead) if dead else "only values it takes")))
+    return out
